@@ -369,7 +369,19 @@ class Mesh:
             },
         }
 
-    def _decode_cell_data(self, cell_data: Dict[str, List[ndarray]]):
+    def _decode_cell_data(self,
+                          cell_data: Dict[str, List[ndarray]],
+                          t2f: Optional[ndarray] = None):
+        """Decode the output of :meth:`Mesh._encode_cell_data`.
+
+        The facets are encoded by their position in the elements.  If the
+        elements were written with another order of vertices than in
+        ``self.t``, e.g., because ``self.t`` is sorted, the corresponding
+        mapping from elements to facets must be given as ``t2f``.
+
+        """
+        if t2f is None:
+            t2f = self.t2f
 
         subdomains = {}
         boundaries = {}
@@ -385,7 +397,7 @@ class Mesh:
                     (1 << np.arange(self.refdom.nfacets))[:, None]
                     & data[0].astype(np.int32)
                 ).astype(bool)
-                facets = self.t2f[mask]
+                facets = t2f[mask]
                 cells = mask.nonzero()[1]
                 ix = np.argsort(facets)
                 facets, cells = facets[ix], cells[ix]
